@@ -469,6 +469,8 @@ int main(int argc, char** argv)
     gCases.push_back({ 2, 3, 1, 1, false, true });
     // shutdown while the acceptor cannot accept (out of descriptors) and a connection waits in the backlog
     gCases.push_back({ 2, 2, 1, 1, true, false, 2 });
+    // shutdown while a thread is in the middle of a batch (before any of its lock acquisitions)
+    gCases.push_back({ 2, 2, 1, 0, true, true });
     gCases.push_back({ 2, 2, 2, 0, true });
     gCases.push_back({ 3, 3, 1, 0, true });
     if (thorough)
